@@ -194,6 +194,87 @@ fn judge_desc(rep: &mut Report, case: u64, p: &Pol, pstr: &str, d: &Descriptor<S
 /// Placeholder policy for per-leaf structural checks (meaning is judged on the whole descriptor).
 fn leaf_pol_any() -> Pol { Pol::Trivial }
 
+/// A signer that has a maximum-size ECDSA signature (72-byte DER + hash type) for every key.
+struct EverySig;
+impl miniscript::Satisfier<bitcoin::PublicKey> for EverySig {
+    fn lookup_ecdsa_sig(&self, _: &bitcoin::PublicKey) -> Option<bitcoin::ecdsa::Signature> {
+        let mut c = [0u8; 64];
+        c[0] = 0x80;
+        c[31] = 1;
+        c[32] = 0x80;
+        c[63] = 1;
+        bitcoin::secp256k1::ecdsa::Signature::from_compact(&c).ok().map(|signature| bitcoin::ecdsa::Signature { signature, sighash_type: bitcoin::EcdsaSighashType::All })
+    }
+}
+
+fn push_len(n: usize) -> usize {
+    if n == 0 {
+        1
+    } else if n <= 75 {
+        1 + n
+    } else if n <= 255 {
+        2 + n
+    } else {
+        3 + n
+    }
+}
+
+/// Resource limits of the P2SH context, measured on a real satisfaction: policies over 13..=19
+/// real keys whose cheapest script stays below 520 bytes while its satisfaction approaches the
+/// 1650-byte scriptSig limit. The compiler may refuse; what it returns must be spendable within
+/// the limits of the context it was compiled for.
+fn legacy_limits_case(rep: &mut Report, case: u64, world: &World, rng: &mut Rng) {
+    let n = 13 + rng.below(7);
+    let base = 1 + rng.below(200) as u8;
+    let keys: Vec<String> = (0..=n)
+        .map(|j| {
+            let mut sk = [0x22u8; 32];
+            sk[30] = base;
+            sk[31] = j as u8 + 1;
+            let pk = bitcoin::secp256k1::PublicKey::from_secret_key(&world.secp, &bitcoin::secp256k1::SecretKey::from_slice(&sk).unwrap());
+            crate::world::hex(&pk.serialize())
+        })
+        .collect();
+    let all = keys[1..].iter().map(|k| format!("pk({})", k)).collect::<Vec<_>>().join(",");
+    let ptext = match rng.below(3) {
+        0 => format!("or(99@pk({}),1@thresh({},{}))", keys[0], n, all),
+        1 => format!("thresh({},{})", n, all),
+        _ => format!("or(1@pk({}),9@thresh({},{}))", keys[0], n - 1, all),
+    };
+    let conc = match guarded(|| Concrete::<bitcoin::PublicKey>::from_str(&ptext)) {
+        Ok(Ok(c)) => c,
+        _ => return,
+    };
+    rep.eval();
+    let c2 = conc.clone();
+    match guarded(move || c2.compile::<Legacy>()) {
+        Ok(Ok(ms)) => {
+            let script_len = ms.encode().len();
+            let sat = guarded(std::panic::AssertUnwindSafe(|| ms.satisfy(EverySig)));
+            match sat {
+                Ok(Ok(items)) => {
+                    let script_sig = items.iter().map(|x| push_len(x.len())).sum::<usize>() + push_len(script_len);
+                    rep.nontrivial(&format!("legacy-limits|{}|{}", n, script_sig));
+                    if script_len > 520 {
+                        rep.violation(case, "C08:output-exceeds-limits:compile<Legacy>:redeem-script-size".into(), format!("policy over {} keys compiled for P2SH to a script of {} bytes (limit 520): {}", n, script_len, ptext));
+                    } else if script_sig > 1650 {
+                        rep.violation(
+                            case,
+                            "C08:output-exceeds-limits:compile<Legacy>:scriptsig-size".into(),
+                            format!("policy over {} keys compiled for P2SH to {} ({} bytes); its satisfaction with every key signing needs a scriptSig of {} bytes (standardness limit 1650): {}", n, ms, script_len, script_sig, ptext),
+                        );
+                    } else {
+                        rep.count("legacy-limits: compiled and spendable within 520 / 1650 bytes");
+                    }
+                }
+                _ => rep.count("legacy-limits: compiled, not satisfiable by the all-keys signer"),
+            }
+        }
+        Ok(Err(_)) => rep.count("legacy-limits: refused"),
+        Err(m) => compile_panicked(rep, case, "compile<Legacy>", &m, &ptext),
+    }
+}
+
 fn timed<T>(rep: &mut Report, what: &str, f: impl FnOnce() -> T + std::panic::UnwindSafe) -> Result<T, String> {
     let t = Instant::now();
     let r = guarded(f);
@@ -358,6 +439,9 @@ pub fn run(cfg: &RunCfg, rep: &mut Report) {
                 Ok(Err(_)) => rep.count(&format!("refused:{}", name)),
                 Err(m) => compile_panicked(rep, i, name, &m, &pstr),
             }
+        }
+        if i % 6 == 3 {
+            legacy_limits_case(rep, i, &world, &mut rng);
         }
         // real keys in mixed serialisations: a context that forbids a key kind (uncompressed in
         // segwit v0) must refuse or avoid it; what it returns must re-parse in that context
